@@ -1,4 +1,5 @@
 import RegalModel.Model.Lsp
+import RegalModel.Model.LspCache
 /-!
 # C15 — Language-server diagnostics converge to a from-scratch workspace lint
 
@@ -169,3 +170,96 @@ theorem merge_by_rule_disjoint (cur : List Diag) (A B : List String) (dA dB : Li
   rw [h1, h2, h3]; simp
 
 end RegalModel.Lsp
+
+namespace RegalModel.LspCache
+open List
+
+theorem clean_init (files : List Uri) : Clean (init files) := by simp [Clean, init]
+
+/-- **clean_step**: with the repaired stores, no event and no (non-atomic) worker step caches anything for a file that
+is not in the workspace — whatever happens between reading a file and storing its results. -/
+theorem clean_step (s : St) (e : Ev) (h : Clean s) : Clean (step true s e) := by
+  obtain ⟨hm, ha⟩ := h
+  cases e with
+  | change u =>
+    simp only [step]
+    constructor
+    · intro v hv
+      have := hm v hv
+      split
+      · exact this
+      · exact List.mem_cons_of_mem _ this
+    · intro v hv
+      have := ha v hv
+      split
+      · exact this
+      · exact List.mem_cons_of_mem _ this
+  | delete u =>
+    simp only [step]
+    constructor
+    · intro v hv
+      rw [List.mem_filter] at hv ⊢
+      exact ⟨hm v hv.1, hv.2⟩
+    · intro v hv
+      rw [List.mem_filter] at hv ⊢
+      exact ⟨ha v hv.1, hv.2⟩
+  | start =>
+    simp only [step]
+    split
+    · split <;> exact ⟨hm, ha⟩
+    · exact ⟨hm, ha⟩
+  | storeModule =>
+    simp only [step]
+    split
+    · rename_i u _
+      by_cases hc : s.files.contains u = true
+      · simp only [Bool.not_true, Bool.false_or, hc, if_true]
+        refine ⟨?_, ha⟩
+        intro v hv
+        simp only [List.mem_cons] at hv
+        rcases hv with rfl | hv
+        · simpa using hc
+        · exact hm v hv
+      · simp only [Bool.not_true, Bool.false_or, hc, Bool.false_eq_true, if_false]
+        exact ⟨hm, ha⟩
+    · exact ⟨hm, ha⟩
+  | storeAggs =>
+    simp only [step]
+    split
+    · rename_i u _
+      by_cases hc : s.files.contains u = true
+      · simp only [Bool.not_true, Bool.false_or, hc, if_true]
+        refine ⟨hm, ?_⟩
+        intro v hv
+        simp only [List.mem_cons] at hv
+        rcases hv with rfl | hv
+        · simpa using hc
+        · exact ha v hv
+      · simp only [Bool.not_true, Bool.false_or, hc, Bool.false_eq_true, if_false]
+        exact ⟨hm, ha⟩
+    · exact ⟨hm, ha⟩
+
+/-- **cache_never_outlives_file**: for EVERY history (any length, any interleaving of the handlers with the three
+phases of the file worker) of the repaired server: every cached module and every cached aggregate entry belongs to a
+file of the workspace. -/
+theorem cache_never_outlives_file (files : List Uri) (evs : List Ev) : Clean (run true (init files) evs) := by
+  unfold run
+  generalize hs : init files = s
+  have h : Clean s := hs ▸ clean_init files
+  clear hs
+  induction evs generalizing s with
+  | nil => exact h
+  | cons e rest ih => exact ih _ (clean_step s e h)
+
+/-- **inflight_delete_resurrects** (the code before the repairs, /repo a316f0a and 180f173): open a file, let the
+worker read it, delete the file, let the worker finish — its module and its aggregates are back in the cache although
+the file is gone, and nothing ever removes them. The schedule the C15 check found with `VERIF_SEED=3`. -/
+theorem inflight_delete_resurrects :
+    let s := run false (init ["p0", "p1"]) [.change "p2", .start, .delete "p2", .storeModule, .storeAggs]
+    "p2" ∉ s.files ∧ "p2" ∈ s.modules ∧ "p2" ∈ s.aggs := by decide
+
+/-- the same schedule on the repaired server leaves nothing behind -/
+example : let s := run true (init ["p0", "p1"]) [.change "p2", .start, .delete "p2", .storeModule, .storeAggs]
+    "p2" ∉ s.files ∧ "p2" ∉ s.modules ∧ "p2" ∉ s.aggs := by decide
+
+end RegalModel.LspCache
